@@ -51,6 +51,15 @@ theorem C01_hint : hintB = true := by decide +kernel
 def memcmpHintB : Bool := tab.all fun r => !(ruleName r.1 == "memcmp_hint") || r.2.2.1 == wIHint
 theorem C01_memcmp_hint : memcmpHintB = true ∧ (tab.any fun r => ruleName r.1 == "memcmp_hint") = true := by decide +kernel
 
+/-- a hint stays a hint: whatever is computed from a hint operand (copies, negation, comparisons, arithmetic, logic) is again
+a hint (or nothing, or the address of the hint object) -- it can never be laundered into a `tainted` value, which a verifier
+would accept; only the explicitly named unsafe unwrappers turn it into a plain value -/
+def hintStickyB : Bool := tab.all fun r =>
+  !(r.2.1.any fun o => o.1 == wBHint || o.1 == wIHint) ||
+  r.2.2.1 == wBHint || r.2.2.1 == wIHint || r.2.2.1 == wVoid || r.2.2.1 == wPtrToWrapper ||
+  ["m_unverified", "m_safe_because", "m_internal"].contains (ruleName r.1)
+theorem C01_hint_sticky : hintStickyB = true := by decide +kernel
+
 /-- hints cannot be passed to a verifier: no `copy_and_verify*` row with a hint operand compiles -/
 def hintNotVerifiableB : Bool := tab.all fun r =>
   !(["m_cav", "m_cav_addr", "m_cav_range", "m_cav_string", "m_cav_buf"].contains (ruleName r.1) &&
